@@ -1,4 +1,5 @@
 import HdVerif.Proofs.FrameAccess
+import HdVerif.Proofs.Offsets
 /-! # C05  Every way of fetching stored frames returns the same pixels
 
 Property theorems only (helper lemmas live in `Proofs/`).  All statements are about the
@@ -10,7 +11,7 @@ Native (unencapsulated) images.  `PixelData` of a 1-bit image is `pack frames.fl
 (DICOM PS3.5 bit order; tie C checks this against pydicom's `pack_bits`); for >= 8 bits it
 is the concatenation of the frames' bytes. -/
 namespace HdVerif.C05
-open HdVerif HdVerif.Bits HdVerif.Gen HdVerif.FrameAccess HdVerif.FrameAccessLemmas
+open HdVerif HdVerif.Bits HdVerif.Gen HdVerif.FrameAccess HdVerif.FrameAccessLemmas HdVerif.Offsets
 
 /-- Frame numbers: accepted iff inside the image, result 0-based, 1-based unless `as_index`. -/
 theorem frame_number_accepted_iff (k N : Int) (asIndex : Bool) (r : Int) :
@@ -138,5 +139,100 @@ example : memFrameBits (pack [[true,false,false,false,false,true],[true,true,fal
 
 example : memFrameBytes [[1,2],[3,4]].flatten 1 2 1 8 2 "MONOCHROME2" 2 false = .ok [3,4] :=
   memory_frame_bytes [[1,2],[3,4]] 1 2 1 8 "MONOCHROME2" (by decide) (by decide) (by simp) 1 (by simp)
+
+/-! ## Encapsulated pixel data: offset tables and the fragment walk of the lazy reader -/
+
+/-- The table `_build_bot` constructs for one-fragment-per-frame streams (RLE, …) lists the byte
+offset of every frame — whether or not some fragments happen to begin with marker bytes. -/
+theorem bot_single_fragment (frames : List (List Frag)) (hw : WellFormed frames.flatten)
+    (h1 : ∀ fr ∈ frames, ∃ f, fr = [f]) :
+    buildBot frames.flatten frames.length = .ok (frameOffsetsFrom 0 frames) := by
+  unfold buildBot
+  rw [botLoop_spec _ hw]
+  simp only [bind, Except.bind, List.nil_append]
+  have hlen : frames.flatten.length = frames.length := by
+    clear hw
+    induction frames with
+    | nil => rfl
+    | cons fr frs ih =>
+      obtain ⟨f, rfl⟩ := h1 fr (by simp)
+      simp [ih (fun g hg => h1 g (by simp [hg]))]
+  by_cases hm : (markedFrom 0 frames.flatten).length = frames.length
+  · simp only [hm, ↓reduceIte]
+    rw [marked_eq_offsets_of_length 0 _ (by rw [hm, hlen]), offsets_singletons 0 frames h1]
+  · simp only [hm, ↓reduceIte, offsetsFrom_length, hlen]
+    rw [offsets_singletons 0 frames h1]
+
+/-- For marker-delimited frames (JPEG, JPEG-LS, JPEG 2000; any number of fragments per frame) the
+table lists the offset of the first fragment of every frame. -/
+theorem bot_marker_delimited (frames : List (List Frag)) (hw : WellFormed frames.flatten)
+    (hm : MarkerDelimited frames) :
+    buildBot frames.flatten frames.length = .ok (frameOffsetsFrom 0 frames) := by
+  unfold buildBot
+  rw [botLoop_spec _ hw]
+  simp only [bind, Except.bind, List.nil_append]
+  rw [marked_frames 0 frames hm]
+  simp [frameOffsetsFrom_length]
+
+/-- **Fragment walk**: with the table of frame offsets, `read_frame_raw i` returns the concatenation
+of exactly the fragments of frame `i` — for every frame, every fragmentation, last frame included. -/
+theorem read_frame_fragments (frames : List (List Frag))
+    (hne : ∀ fr ∈ frames, fr.flatten ≠ []) (i : Nat) (hi : i < frames.length) :
+    readFrameRaw frames.flatten (frameOffsetsFrom 0 frames) i = .ok frames[i].flatten := by
+  unfold readFrameRaw
+  rw [frameOffsets_getElem 0 frames i hi]
+  simp only [Nat.zero_add]
+  have hsplit : frames.flatten = (frames.take i).flatten ++ (frames[i] ++ (frames.drop (i + 1)).flatten) := by
+    conv => lhs; rw [← List.take_append_drop i frames]
+    rw [List.flatten_append, List.drop_eq_getElem_cons hi, List.flatten_cons]
+  have hseek : seekFrag frames.flatten 0 (streamSize (frames.take i).flatten)
+      = .ok (frames[i] ++ (frames.drop (i + 1)).flatten) := by
+    have := seekFrag_ok (frames.take i).flatten (frames[i] ++ (frames.drop (i + 1)).flatten) 0
+    rw [← hsplit] at this
+    simpa using this
+  have hdata : frames[i].flatten.length ≠ 0 := by
+    intro h0; exact hne _ (List.getElem_mem hi) (List.length_eq_zero_iff.mp h0)
+  by_cases hlast : i + 1 < frames.length
+  · rw [frameOffsets_getElem 0 frames (i + 1) hlast]
+    simp only [Nat.zero_add, bind, Except.bind, hseek]
+    have e : ((streamSize (frames.take (i + 1)).flatten : Nat) : Int) - (streamSize (frames.take i).flatten : Nat)
+        = ((0 + streamSize frames[i] : Nat) : Int) := by
+      rw [List.take_succ_eq_append_getElem hi, List.flatten_append, streamSize_append]
+      simp
+    rw [e]
+    have hr := readLoop_exact frames[i] (frames.drop (i + 1)).flatten 0 [] trivial
+    rcases hr with h | ⟨hnil, _⟩
+    · simp only [Int.natCast_zero] at h
+      rw [h]
+      simpa using hdata
+    · exfalso; rw [hnil] at hdata; simp at hdata
+  · have hnone : (frameOffsetsFrom 0 frames)[i + 1]? = none := by
+      rw [List.getElem?_eq_none]; rw [frameOffsetsFrom_length]; omega
+    simp only [hnone, bind, Except.bind, hseek]
+    have hd : frames.drop (i + 1) = [] := by
+      rw [List.drop_eq_nil_iff]; omega
+    rw [hd, List.flatten_nil, List.append_nil, readLoop_all _ 0 (by omega)]
+    simpa using hdata
+
+/-- Basic (stored), rebuilt and extended tables give the same frames: a stored table with one entry
+per frame is used as it is, any other is rebuilt; if both are the frame offsets the reads coincide. -/
+theorem stored_or_rebuilt_table (frames : List (List Frag)) (stored : List Nat)
+    (hw : WellFormed frames.flatten) (hm : MarkerDelimited frames ∨ ∀ fr ∈ frames, ∃ f, fr = [f])
+    (hs : stored = [] ∨ stored = frameOffsetsFrom 0 frames) (hpos : 0 < frames.length) :
+    getBot stored frames.flatten frames.length = .ok (frameOffsetsFrom 0 frames) := by
+  unfold getBot
+  rcases hs with rfl | rfl
+  · have : ([] : List Nat).length ≠ frames.length := by simp; omega
+    simp only [this, ↓reduceIte, ne_eq, not_false_eq_true]
+    rcases hm with hm | h1
+    · exact bot_marker_delimited frames hw hm
+    · exact bot_single_fragment frames hw h1
+  · simp [frameOffsetsFrom_length]
+
+/-- non-vacuity: two frames, the first in two fragments, JPEG-style markers -/
+example : readFrameRaw [[0xFF,0xD8,1,2],[3,4],[0xFF,0xD8,5,6]] (frameOffsetsFrom 0 [[[0xFF,0xD8,1,2],[3,4]],[[0xFF,0xD8,5,6]]]) 0
+    = .ok [0xFF,0xD8,1,2,3,4] :=
+  read_frame_fragments [[[0xFF,0xD8,1,2],[3,4]],[[0xFF,0xD8,5,6]]] (by simp) 0 (by simp)
+example : buildBot [[0xFF,0xD8,1,2],[3,4],[0xFF,0xD8,5,6]] 2 = .ok [0, 22] := by decide
 
 end HdVerif.C05
